@@ -160,7 +160,7 @@ FORMS = [
 ]
 SCALES = [('x', 2, 1), ('x', 1, 2), ('g', -1, 1), ('g', 0, 1), ('n1', 3, 1)]
 SPLITS = [(2, ''), (3, ''), (2, 'g'), (3, 'g'), (1, ''), (7, ''), (2, 'x')]
-EXTRACTS = ['first', 'ends', 'rev', 'dup', 'oob', 'neg']
+EXTRACTS = ['first', 'ends', 'rev', 'dup', 'oob', 'neg', 'mid']
 COUNTS = [('g', 1), ('x', 2)]
 
 
@@ -298,6 +298,11 @@ def _norm_flat(spec_flat) -> list:
     return [dict(id=l['id'], common=[list(p) for p in l['common']], obs=[[list(p) for p in o] for o in l['obs']]) for l in spec_flat]
 
 
+# tables handed back by earlier operations, with what they held when they were returned: a returned table is a VALUE
+# (later operations on the data set do not change it, operations on it do not change the data set)
+KEPT: list = []
+
+
 def apply_step(db, step: dict, variant: int):
     """Run one operation on the real Database -> (error class name or '', return value in trace form)."""
     op, a = step['op'], step['a']
@@ -342,8 +347,12 @@ def apply_step(db, step: dict, variant: int):
             return '', [[_num(i)] + [_num(v) for v in row] for i, row in zip(s.index.tolist(), s.values.tolist())]
         if op == 'extract':
             pos = [p - 1 for p in a['ps']]
-            sub = db.extract_rows(pos if variant % 2 or a['kind'] != 'first' else range(0, 1))
-            return '', _rows(sub.data)
+            # positions as a list, or as a range when they are consecutive (both are documented)
+            consecutive = len(pos) >= 1 and pos == list(range(pos[0], pos[0] + len(pos)))
+            sub = db.extract_rows(range(pos[0], pos[0] + len(pos)) if consecutive and variant % 2 == 0 else pos)
+            got = _rows(sub.data)
+            KEPT.append((f'extract at step', sub, got))
+            return '', got
         if op == 'flatten':
             flat = db.generate_flat_panel_dataframe() if a['kind'] == 'auto' else db.generate_flat_panel_dataframe(identical_columns=[])
             return '', _flat_to_struct(flat, [str(c) for c in db.data.columns])
@@ -395,6 +404,7 @@ def replay(hist: dict) -> dict:
     df = pd.DataFrame([r[1:] for r in init['rows']], columns=cols, index=[r[0] for r in init['rows']])
     db = Database(f"t{hist['tid']}", df)
     events, mismatch, notes = [], None, []
+    KEPT.clear()
     state = _state(db)
     if state != dict(init, excl=0, pcol='', map=[]):
         mismatch = dict(step=0, op='init', clause='init:state', want=init, got=state)
@@ -441,6 +451,19 @@ def replay(hist: dict) -> dict:
                         clause = 'extract:rows'
                     elif step['op'] in ('count', 'sizes'):
                         clause = f"{step['op']}:value"
+        if clause is None:
+            # tables returned earlier are values: re-read them; then change the most recent one and re-read the data set
+            for what, obj, held in KEPT:
+                if _rows(obj.data) != held:
+                    clause = 'returned-table:changed-by-a-later-operation'
+                    break
+            if clause is None and KEPT and step['op'] == 'extract' and len(KEPT[-1][1].data.columns) and len(KEPT[-1][1].data.index):
+                sub = KEPT[-1][1]
+                col = str(sub.data.columns[-1])
+                sub.scale_column(col, 3.0)
+                KEPT[-1] = (KEPT[-1][0], sub, _rows(sub.data))
+                if _state(db) != state:
+                    clause = 'returned-table:changing-it-changes-the-data-set'
         if clause:
             mismatch = dict(step=k + 1, op=step['op'], args=step['a'], clause=clause, features=feats, before=before,
                             want=dict(err=e['err'], state=want_state, ret=e['ret'] if e['det'] else 'any allowed outcome'),
